@@ -251,6 +251,9 @@ func c17A(c *core.Case) {
 			sqliteUndetectable = true
 			c.Count("A_sqlite_rules_would_not_restore_either", 1)
 		}
+		if keep := os.Getenv("VERIF_DEBUG_C17_KEEP"); keep != "" {
+			_ = copyTree(dir, keep) // (debugging aid: the files the recovery starts from)
+		}
 		watch.install(n)
 		ctx, cancel := context.WithTimeout(context.Background(), 20*time.Second)
 		err := n.Store.DB("db").Recover(ctx)
@@ -333,6 +336,9 @@ func c17A(c *core.Case) {
 		if res.Aborted && !res.Finalized && !sqliteUndetectable && !sqlitePlaybackRestores(filepath.Join(dir2, "dbs", "db"), ps, want) {
 			sqliteUndetectable = true
 			c.Count("A_sqlite_rules_would_not_restore_either", 1)
+		}
+		if keep := os.Getenv("VERIF_DEBUG_C17_KEEP"); keep != "" {
+			_ = copyTree(dir2, keep) // (debugging aid: the crash image the recovery starts from)
 		}
 		n2, err := drv.NewNode(drv.Config{Dir: dir, Candidate: true, Leaser: litefs.NewStaticLeaser(true, "localhost", "http://127.0.0.1:1"), PreOpen: func(nn *drv.Node) { watch.install(nn) }})
 		if err != nil {
